@@ -28,7 +28,9 @@ MANIFEST = dict(
     "C14_subset_order, C14_positional, C14_missing_mandatory_refused (+ raise_exception=False yields nothing), "
     "C14_missing_optional_not_consumed (seek: the first line is the first record), C14_padding/C14_surplus_dropped, "
     "C14_empty_file_refused, C14_lf_crlf_bom_invariant (for every option record: LF/CRLF and BOM/no BOM give the "
-    "same result in text mode), C14_binary_same (binary mode = text mode on the byte table), all of the form "
+    "same result in text mode), C14_binary_same (binary mode = text mode on the byte table), C14_encoding_commutes + "
+    "C14_binary_encoded (for every ASCII-transparent byte encoder the encoded file is the file of the encoded table, so binary "
+    "mode yields the same table as encoded bytes), all of the form "
     "loadCsv opts (fileOf bom d eol header rows) = expected records, with blank lines (empty rows) anywhere. "
     "The model is compared with list(load_csv(...)) on real files for the whole option product (including every "
     "SyntaxError/ReferenceError/KeyError/EOFError/ValueError branch), the file layer with open()/readline(), "
